@@ -98,6 +98,12 @@ contract(T + "._protein_to_vote", "C06", variant="dict-payload", params={"protei
          ensures={"stated-confidence-is-reported": "implies('confidence' in protein.payload, result.confidence == protein.payload['confidence'])",
                   "default-confidence-only-when-unstated": "implies('confidence' not in protein.payload, result.confidence == 1.0)"})
 
+# "that strategy's stated criterion": after a strategy switch the criterion applied is the new strategy's with the threshold given WITH the switch
+# (none given = the strategy's own default), never a threshold left over from an earlier configuration
+contract(T + ".set_strategy", "C06", params={"threshold": "opt:real"}, raises=[],
+         ensures={"strategy-and-threshold-are-the-ones-given": "self.strategy == strategy and (threshold is None) == (self.custom_threshold is None) and "
+                                                               "implies(threshold is not None, self.custom_threshold == threshold)"})
+
 contract(T + "._aggregate_votes", "C06", params={"votes": "list:obj:Vote"},
          elem_facts=VOTE_FACTS, counters=COUNTERS, counter_axioms=PARTITION, raises=[],
          inline=False, returns="obj:QuorumResult", modifies=[],
